@@ -198,8 +198,28 @@ impl Co {
             _ => false,
         }
     }
-    /// matcher of the recorded lowering findings
+    /// the tree as `Constraint::not` builds it (since fix 7500ca2): negated comparisons become the
+    /// complementary comparison, double negations cancel
+    pub fn norm(&self) -> Co {
+        match self {
+            Co::Bin(..) => self.clone(),
+            Co::And(a, b) => Co::And(Box::new(a.norm()), Box::new(b.norm())),
+            Co::Or(a, b) => Co::Or(Box::new(a.norm()), Box::new(b.norm())),
+            Co::Not(a) => match a.norm() {
+                Co::Bin(l, op, r) => {
+                    let n = match op { "eq" => "ne", "ne" => "eq", "lt" => "ge", "le" => "gt", "gt" => "le", _ => "lt" };
+                    Co::Bin(l, n, r)
+                }
+                Co::Not(c) => *c,
+                other => Co::Not(Box::new(other)),
+            },
+        }
+    }
+    /// matcher of the recorded lowering findings (on the tree as built)
     pub fn finding_tag(&self, top: bool) -> &'static str {
+        self.norm().finding_tag_n(top)
+    }
+    fn finding_tag_n(&self, top: bool) -> &'static str {
         if top && self.is_all_zero_row() { return "lin-all-zero-coefficients"; }
         if self.has(&|c| matches!(c, Co::Not(_))) { return "not-ignored"; }
         if self.has(&|c| match c {
@@ -707,6 +727,9 @@ impl Co {
     /// solution violates this tree (`nosol = false`) / that the satisfiable model is reported
     /// unsatisfiable (`nosol = true`), judged from what the lowering does with the tree
     pub fn float_tag(&self, lc: &LCase, nosol: bool) -> &'static str {
+        self.norm().float_tag_n(lc, nosol)
+    }
+    fn float_tag_n(&self, lc: &LCase, nosol: bool) -> &'static str {
         if let Co::Bin(l, op, r) = self {
             let c = classify(lc, l, op, r);
             if c.immediate { return "-"; }
@@ -771,8 +794,8 @@ pub fn do_solve(lc: &LCase, out: &mut Out) {
             if let Some(w) = &lc.wit {
                 if lc.cons.iter().all(|c| c.tri(lc, w, true) == Tri::T) {
                     out.stat("solve.NoSolution-with-witness");
-                    let tag = if lc.cons.iter().any(|c| c.aux_clipped_at(w, true)) { "aux-var-clipped" }
-                        else if lc.cons.iter().any(|c| c.strict_unit_gap_at(lc, w, true)) { "mixed-strict-next-unit-step" }
+                    let tag = if lc.cons.iter().any(|c| c.norm().aux_clipped_at(w, true)) { "aux-var-clipped" }
+                        else if lc.cons.iter().any(|c| c.norm().strict_unit_gap_at(lc, w, true)) { "mixed-strict-next-unit-step" }
                         else if let Some(t) = lc.cons.iter().filter(|c| !matches!(c, Co::Bin(..))).map(|c| c.finding_tag(true)).find(|t| *t != "-") { t }
                         else { lc.cons.iter().map(|c| c.float_tag(lc, true)).find(|t| *t != "-").unwrap_or("-") };
                     out.fail(l, "C10", tag, format!("solve() = NoSolution although the witness {:?} satisfies every tree with margin: {:?} (vars {:?})", w, toks(), lc.vars));
